@@ -6,6 +6,7 @@ package checks
 
 import (
 	"fmt"
+	"strings"
 	"testing"
 
 	openfgav1 "github.com/openfga/api/proto/openfga/v1"
@@ -124,6 +125,31 @@ func TestC01(t *testing.T) {
 		ev.HarnessError("C01", "corpus not found under %s/tests/data", ev.Repo())
 		t.Fatal("no corpus")
 	}
+	// boundary documents (fixed, legal, at the edges of the input space), canonical layout
+	if ev.Shard()%4 == 0 {
+		type bdoc struct{ name, dsl string }
+		var docs []bdoc
+		for _, b := range gen.BoundaryModels() {
+			docs = append(docs, bdoc{"boundary: " + b.Name, gen.Render(b.Model, gen.Canonical{}, gen.RenderOpts{}).Text})
+			// the same model written with one type restriction per line: short lines in, long lines out
+			docs = append(docs, bdoc{"boundary/multi-line: " + b.Name, gen.Render(b.Model, gen.Forced{"restr_multiline": 4}, gen.RenderOpts{}).Text})
+		}
+		for _, d := range docs {
+			in := c01Input{DSL: d.dsl, Origin: d.name}
+			acc, msg, _ := c01Check(in.DSL)
+			rec.Case(in.Origin, true, nil, "origin:boundary", map[bool]string{true: "domain:accepted", false: "domain:rejected-by-parser"}[acc])
+			if !acc && msg == "" {
+				msg = "a legal boundary document is rejected by TransformDSLToProto"
+			}
+			if msg != "" {
+				if len(in.DSL) > 20000 {
+					in.DSL = in.DSL[:20000] + "…"
+				}
+				rec.Violation(in, in.Origin+": "+msg)
+				t.Fatalf("%s: %.2000s", in.Origin, msg)
+			}
+		}
+	}
 	rapid.Check(t, func(rt *rapid.T) {
 		var in c01Input
 		mode := rapid.IntRange(0, 9).Draw(rt, "mode")
@@ -182,9 +208,23 @@ func TestReplayC01(t *testing.T) {
 			t.Fatalf("%s: %v", f, err)
 		}
 		rec := ev.New("C01", c01Rule)
-		if _, msg, _ := c01Check(in.DSL); msg != "" {
-			rec.Violation(in, msg)
-			t.Errorf("%s: %s", f, msg)
+		if strings.HasPrefix(in.Origin, "boundary") {
+			// the document is too large to be stored: regenerate it from its name
+			for _, b := range gen.BoundaryModels() {
+				if "boundary: "+b.Name == in.Origin {
+					in.DSL = gen.Render(b.Model, gen.Canonical{}, gen.RenderOpts{}).Text
+				}
+				if "boundary/multi-line: "+b.Name == in.Origin {
+					in.DSL = gen.Render(b.Model, gen.Forced{"restr_multiline": 4}, gen.RenderOpts{}).Text
+				}
+			}
+		}
+		if acc, msg, _ := c01Check(in.DSL); msg != "" || (!acc && strings.HasPrefix(in.Origin, "boundary")) {
+			if msg == "" {
+				msg = "a legal boundary document is rejected by TransformDSLToProto"
+			}
+			rec.Violation(c01Input{Origin: in.Origin}, msg)
+			t.Errorf("%s: %.2000s", f, msg)
 		}
 	}
 }
